@@ -6,6 +6,9 @@ invalid_edits(base)     single edits that violate the metamodel schema, each lab
 skeleton(doc)           the structural skeleton of a document (DESIGN C18)
 sim(readback, doc)      the relation `~` on the Python side
 witness_for(schema, site) a schema-valid document exercising one (definition, property | alternative) site of lsp.schema.json
+schema_coverage(schema) one small document per (definition, property, SHAPE of the property's schema): every alternative of every
+                        anyOf/oneOf, every listed JSON type, every enum value, and arrays of length 0, 1 and 2 wherever the schema
+                        allows an array (so `params` as one type, as [], as [T] and as [T, U]) - derived from lsp.schema.json alone
 """
 import copy
 import json
@@ -335,11 +338,14 @@ def minimal(node, defs, depth=0):
     return None
 
 
-def witness_for(schema, site, root="MetaModel"):
-    """site = ("prop", Def, key) | ("alt", Def, AltDef): a document valid for `root` that uses that property / alternative"""
+def witness_for(schema, site, root="MetaModel", target=None):
+    """site = ("prop", Def, key) | ("alt", Def, AltDef): a document valid for `root` that uses that property / alternative;
+    with `target` given: a document valid for `root` that holds `target` where an instance of Def is expected"""
     defs = schema["definitions"]
     kind, dname, item = site
-    if kind == "prop":
+    if target is not None:
+        pass
+    elif kind == "prop":
         target = minimal(defs[dname], defs)
         target[item] = minimal(defs[dname]["properties"][item], defs)
         if target[item] == []:
@@ -382,3 +388,109 @@ def witness_for(schema, site, root="MetaModel"):
     seen.add(root)
     ok, r = search(defs[root])
     return r if ok else None
+
+
+# ---------------------------------------------------------------------- shape coverage derived from the schema file
+def _alts(node):
+    return node.get("anyOf") or node.get("oneOf")
+
+
+def variants(node, defs, depth=0):
+    """[(shape label, instance)] for one schema node: one instance per alternative / listed type / enum value / boolean, and per
+    array length 0, 1, 2 (length 1 once per variant of the items, length 2 as consecutive pairs of them); nested parts minimal."""
+    if "$ref" in node:
+        n = node["$ref"].split("/")[-1]
+        d = defs[n]
+        if _alts(d) or "enum" in d or depth == 0:
+            sub = variants(d, defs, depth + 1)
+            if _alts(d):
+                return sub
+            return [((n + ":" + l) if l else n, v) for l, v in sub]
+        return [(n, minimal(d, defs))]
+    if _alts(node):
+        out = []
+        for i, a in enumerate(_alts(node)):
+            nm = a["$ref"].split("/")[-1] if "$ref" in a else None
+            for l, v in variants(a, defs, depth + 1):
+                out.append((l if (nm is None and l.startswith("array")) or (nm and l.startswith(nm)) else "%s%s" % (nm or "alt%d" % i, (":" + l) if l else ""), v))
+        return out
+    if "const" in node:
+        return [("", node["const"])]
+    if "enum" in node:
+        return [("=%s" % e, e) for e in node["enum"]]
+    t = node.get("type")
+    if isinstance(t, list):
+        out = []
+        for x in t:
+            out += [(x + ((":" + l) if l else ""), v) for l, v in variants(dict(node, type=x), defs, depth + 1)]
+        return out
+    if t == "object":
+        base = minimal(node, defs)
+        out = [("object", base)]
+        if depth > 0:            # an inline object alternative: vary each of its properties once
+            for k, ps in node.get("properties", {}).items():
+                for l, v in variants(ps, defs, depth + 1):
+                    if k in base and strict_dumps(base[k]) == strict_dumps(v):
+                        continue
+                    out.append(("object.%s%s" % (k, l if l.startswith("=") else (":" + l) if l else ""), dict(base, **{k: v})))
+        return out
+    if t == "array":
+        items = variants(node["items"], defs, depth + 1) if "items" in node else [("any", 1)]
+        out = [("array0", [])]
+        out += [("array1:" + l, [copy.deepcopy(v)]) for l, v in items]
+        out.append(("array2:%s+%s" % (items[0][0], items[0][0]), [copy.deepcopy(items[0][1]), copy.deepcopy(items[0][1])]))
+        if len(items) > 1:
+            for i in range(len(items)):
+                (l1, v1), (l2, v2) = items[i], items[(i + 1) % len(items)]
+                out.append(("array2:%s+%s" % (l1, l2), [copy.deepcopy(v1), copy.deepcopy(v2)]))
+        return out
+    if t == "string":
+        return [("string", "x"), ("string-empty", "")]
+    if t == "boolean":
+        return [("true", True), ("false", False)]
+    if t == "number":
+        return [("number", 1), ("number-zero", 0), ("number-negative", -1)]
+    if t == "null":
+        return [("null", None)]
+    return [("any", minimal(node, defs))]
+
+
+def kinds_used(j):
+    """the `kind` constants a document uses (to attribute a failure to a recorded finding about that kind)"""
+    out = set()
+    for _, n in nodes(j):
+        if isinstance(n.get("kind"), str):
+            out.add(n["kind"])
+    return out
+
+
+def shape_of(label):
+    """array1:BaseType -> array1 ; BaseType -> single ; string-empty -> string-empty"""
+    head = label.split(":")[0]
+    return head if head.startswith("array") else "single" if head[:1].isupper() else label
+
+
+def schema_coverage(schema, root="MetaModel"):
+    """[(label, doc, info)] with info = {site: "Def.prop", shape, uses: [known-finding style names]} - one schema-valid document
+    per (object definition reachable from root, property, variant of the property's schema)"""
+    defs = schema["definitions"]
+    out, seen = [], set()
+    for dname in sorted(defs):
+        d = defs[dname]
+        if d.get("type") != "object" or "properties" not in d:
+            continue
+        base = minimal(d, defs)
+        for pname in sorted(d["properties"]):
+            for lab, val in variants(d["properties"][pname], defs):
+                inst = dict(copy.deepcopy(base), **{pname: copy.deepcopy(val)})
+                doc = inst if dname == root else witness_for(schema, ("prop", dname, pname), root, target=inst)
+                if doc is None:
+                    continue        # the definition is not reachable from the root
+                key = strict_dumps(doc)
+                if key in seen:
+                    continue
+                seen.add(key)
+                label = "%s.%s:%s" % (dname, pname, lab or "const")
+                out.append((label, doc, {"site": "%s.%s" % (dname, pname), "shape": shape_of(lab or "const"), "variant": lab,
+                                         "uses": sorted(kinds_used(doc) | {"%s.%s" % (dname, pname)})}))
+    return out
